@@ -31,7 +31,7 @@ def run(tier):
     rnd = random.Random(common.seed())
     common.build("plain")
     wd = common.workdir("c16")
-    for cfgname in ("MC_WriterAuto.cfg", "MC_WriterAutoTight.cfg"):
+    for cfgname in ("MC_WriterAuto.cfg", "MC_WriterAutoTight.cfg", "MC_WriterAutoBigMin.cfg"):
         r = common.tlc("MC_WriterImpl", cfgname, workers=8, timeout=900)
         ck.require_ok("WriterImpl/" + cfgname, r); ck.add_tlc("WriterImpl/" + cfgname + " (SegmentationIndependence, MinMax, Tiling)", r)
     # ---- contents
